@@ -201,6 +201,7 @@ pub fn run(cfg: &Cfg) -> i32 {
                 cont_max: false,
                 set_vars: h % 2 == 1,
                 stop_at_end: true,
+                jump_targets: None,
             };
             let host = host_for(c, 5 + h as i32);
             let hist = match std::panic::catch_unwind(std::panic::AssertUnwindSafe(|| gen_history(c, &host, &mut rng, &hc))) {
